@@ -221,7 +221,8 @@ pub fn run(a: &Args) {
     let mut concs: Vec<Conc> = vec![];
     for ch in 0..chunks {
         let mut r = Rng::new(seed.wrapping_mul(7919).wrapping_add(ch as u64));
-        let c = Conc::new(&mut r, true);
+        // rank=1: ranked special doubles (+-inf, +-MAX, ...) for X/Y in every other file (C05)
+        let c = Conc::new(&mut r, !(a.has("rank") && ch % 2 == 1));
         let mut meta = c.meta();
         meta["prop"] = json!(prop);
         meta["seed"] = json!(seed);
